@@ -275,8 +275,7 @@ func (j *jsonReader) Type() Type {
 	if ty, ok := typeFromName(typ); ok {
 		return ty
 	}
-	//TODO: return error
-	panic("Invalid type")
+	return typeInvalid
 }
 
 // Tag implements reader.
